@@ -177,6 +177,39 @@ func schedProperty(t *rapid.T, replay *schedCase) {
 		if rapid.IntRange(0, 5).Draw(t, "three") == 0 {
 			nt = 3
 		}
+		if rapid.IntRange(0, 4).Draw(t, "readvsremove") == 0 {
+			// a reader of a collection against a command that removes or replaces that very key: the reader's
+			// existence check and its read of the value are two keyspace steps
+			k := gen.Key(t, schedKeys, "rk")
+			kind := rapid.SampledFrom([]string{"list", "hash", "set", "zset", "string"}).Draw(t, "rkind")
+			var seed []string
+			var readers [][]string
+			switch kind {
+			case "list":
+				seed = []string{"RPUSH", k, "e1", "e2", "e3"}
+				readers = [][]string{{"LRANGE", k, "0", "-1"}, {"LLEN", k}, {"LINDEX", k, "1"}}
+			case "hash":
+				seed = []string{"HSET", k, "f", "v", "g", "w"}
+				readers = [][]string{{"HGET", k, "f"}, {"HLEN", k}, {"HEXISTS", k, "g"}, {"HMGET", k, "f", "g"}, {"HSTRLEN", k, "f"}}
+			case "set":
+				seed = []string{"SADD", k, "m1", "m2", "m3"}
+				readers = [][]string{{"SCARD", k}, {"SISMEMBER", k, "m1"}, {"SMISMEMBER", k, "m1", "zz"}}
+			case "zset":
+				seed = []string{"ZADD", k, "1", "m1", "2", "m2"}
+				readers = [][]string{{"ZCARD", k}, {"ZSCORE", k, "m1"}, {"ZRANK", k, "m2"}, {"ZCOUNT", k, "-inf", "+inf"}, {"ZMSCORE", k, "m1", "zz"}}
+			default:
+				seed = []string{"SET", k, "hello"}
+				readers = [][]string{{"GET", k}, {"STRLEN", k}, {"GETRANGE", k, "1", "3"}, {"TTL", k}, {"TYPE", k}}
+			}
+			c.Setup = append(c.Setup, []string{"DEL", k}, seed)
+			other := schedKeys[0]
+			if other == k {
+				other = schedKeys[1]
+			}
+			removers := [][]string{{"DEL", k}, {"FLUSHDB"}, {"RENAME", k, other}, {"SET", k, "replaced"}, {"GETDEL", k}, {"FLUSHALL"}, {"SWAPDB", "0", "1"}, {"LTRIM", k, "1", "0"}, {"PEXPIREAT", k, "1"}}
+			c.Tasks = append(c.Tasks, rapid.SampledFrom(readers).Draw(t, "reader"), rapid.SampledFrom(removers).Draw(t, "remover"))
+			nt = 0
+		}
 		for i := 0; i < nt; i++ {
 			c.Tasks = append(c.Tasks, genSchedCmd(t, m))
 		}
